@@ -977,6 +977,40 @@ def rule_N7(ctx):
     ctx.analysed(f)
 
 
+def rule_N8(ctx):
+    """The cluster table the summary commands expand clusters with is the one stored in the trace: one row per mutation
+    (`mutation_id`, `cluster_id`), duplicates removed.  A PyClone-VI cluster file has one row per mutation *per sample*;
+    without the de-duplication every mutation of a cluster that is not in the tree is listed once per sample row."""
+    prog = ctx.prog
+    ctx.rule("N8", "the cluster table stored with each chain is the cluster file projected onto (mutation_id, cluster_id) with duplicates dropped", 1)
+    w = prog.fn("process_trace.create_main_run_output")
+    ex = extract(prog, w)
+    sp = spec(prog, """
+def s(cluster_file, out_file, results):
+    for chain_result in results.values():
+        if cluster_file is not None:
+            chain_result["clusters"] = pd.read_csv(cluster_file, sep="\\t")[["mutation_id", "cluster_id"]].drop_duplicates()
+""", w)
+    got = [e for e in ex.events if e.name == "store_sub" and len(e.args) == 3 and e.args[1] == "clusters"]
+    want = [e for e in sp.events if e.name == "store_sub" and len(e.args) == 3 and e.args[1] == "clusters"]
+    if not got:
+        raise AnalysisError("N8: create_main_run_output stores no 'clusters' entry")
+    ok, why = True, ""
+    for g in got:
+        v = g.args[2]
+        if not any(equivalent(v, w_.args[2])[0] for w_ in want):
+            # the same table spelled with usecols= / subset= / a named intermediate is the same table only if the
+            # projection and the de-duplication are both there
+            a_names = {a[1] for a in atoms_of(v) if a[0] in ("call", "mcall") and isinstance(a[1], str)}
+            has_dedup = any(n_.split(".")[-1] in ("drop_duplicates", "unique", "groupby") for n_ in a_names)
+            if not has_dedup:
+                ok, why = False, "the stored table is %s: the rows of the cluster file are kept as they are (one per mutation and sample), not reduced to one per mutation" % show(v)[:200]
+            else:
+                raise AnalysisError("N8: the stored cluster table %s is de-duplicated in a way this rule cannot compare with the reference" % show(v)[:160])
+    ctx.check(ok, "N8", "create_main_run_output: clusters = read_csv(cluster_file)[[mutation_id, cluster_id]].drop_duplicates()", w.where(got[0].node), why, construct=w.qualname, stmt="clusters table")
+    ctx.analysed(w)
+
+
 def run(ctx):
     ctx.assume("pandas DataFrame / groupby / explode / concat and networkx DiGraph behave as documented")
     ctx.assume("rustworkx dfs_search calls tree_edge before the child is discovered and finish_vertex after all descendants are finished")
@@ -987,6 +1021,7 @@ def run(ctx):
     ctx.soft(rule_N5)
     ctx.soft(rule_N6)
     ctx.soft(rule_N7)
+    ctx.soft(rule_N8)
     # the ccf / clonal_prev columns are the MAP assignment's: its traceback and output formulas (C10.X4, X5)
     from . import C10
 
